@@ -580,3 +580,10 @@ V("r4-tabledata-unpermuted", ["C03"], ["TERMINAL-DISPATCH", "GEN-DEFS"], "fire",
 V("r4-wait-ten-times-shorter", ["C14"], ["LOCK-PROTO"], "fire", (JIT, "            time.sleep(1)", "            time.sleep(0.1)"))
 V("r4-wait-benign-finer-polling", ["C14"], ["LOCK-PROTO"], "benign", (JIT, "        for i in range(timeout):", "        for i in range(timeout * 10):"), (JIT, "            time.sleep(1)", "            time.sleep(0.1)"))
 V("r4-restriction-none-cfj", ["C02", "C03"], ["RESTRICTION-FLOW"], "fire", (ACC, "            table = L.Symbol(f\"{cellname}_cell_facet_jacobian\", dtype=L.DataType.REAL)\n            facet = self.symbols.entity(\"facet\", mt.restriction)", "            table = L.Symbol(f\"{cellname}_cell_facet_jacobian\", dtype=L.DataType.REAL)\n            facet = self.symbols.entity(\"facet\", None)"))
+
+V("sig-benign-local-for-args", ["C13"], ["SIG-COMPLETE"], "benign",
+  (JIT, "    if sys.platform.startswith(\"win32\"):\n        # NOTE: SOABI not defined", "    compile_args = str(cffi_extra_compile_args)\n    if sys.platform.startswith(\"win32\"):\n        # NOTE: SOABI not defined"),
+  (JIT, "            str(cffi_extra_compile_args)\n            + str(cffi_debug)\n            + str(sysconfig.get_config_var(\"CFLAGS\"))", "            compile_args\n            + str(cffi_debug)\n            + str(sysconfig.get_config_var(\"CFLAGS\"))"))
+V("sig-args-sorted-set", ["C13"], ["SIG-COMPLETE"], "fire",
+  (JIT, "    if sys.platform.startswith(\"win32\"):\n        # NOTE: SOABI not defined", "    compile_args = str(sorted(set(cffi_extra_compile_args)))\n    if sys.platform.startswith(\"win32\"):\n        # NOTE: SOABI not defined"),
+  (JIT, "            str(cffi_extra_compile_args)\n            + str(cffi_debug)\n            + str(sysconfig.get_config_var(\"CFLAGS\"))", "            compile_args\n            + str(cffi_debug)\n            + str(sysconfig.get_config_var(\"CFLAGS\"))"))
